@@ -4,7 +4,7 @@ C13 — publish() order; C14 (session part) — live messages never share a pack
 Proved for every history of operations from the initial state, from the frame lemmas
 (`PahoProofs/Lemmas/OutFrame.lean`), the inductive invariant (`PahoProofs/Lemmas/OutInv.lean`)
 and the state-dependent invariant + retransmission lemma (`PahoProofs/Lemmas/OutRetx.lean`).
-No statement was changed.
+No statement was changed (`c01_final_ack_rc` was added when `_do_on_publish` started to set `info.rc`).
 -/
 import Paho.Model.Session
 import Paho.Model.SessionInv
@@ -105,11 +105,11 @@ theorem c13_step_order (cfg : Cfg) (proto : Nat) (ops : List Op) (op : Op) :
     obtain ⟨g, hsame, hc, hu⟩ := ha
     obtain ⟨evs, hlog, hg⟩ := hsame.log
     have hlog' : (s.step op).log = s.log ++ ([Ev.onPublish mid, Ev.completed m0.info mid,
-        Ev.infoDone m0.info ((s.infos[m0.info]?.map (·.rc)).getD 0)] ++ evs) := by
+        Ev.infoDone m0.info rcSuccess] ++ evs) := by
       rw [hlog]; simp [ackState]
     rw [huids, newEvents_of_log hlog', uidsOf_append]
     have h3 : uidsOf [Ev.onPublish mid, Ev.completed m0.info mid,
-        Ev.infoDone m0.info ((s.infos[m0.info]?.map (·.rc)).getD 0)] = [] := rfl
+        Ev.infoDone m0.info rcSuccess] = [] := rfl
     rw [h3, List.nil_append, ← uidsOf_filter_ghost, hg]
     have hsub : ((ackState s mid m0).out.map (·.info)).Sublist (s.out.map (·.info)) :=
       (List.filter_sublist).map _
@@ -230,7 +230,7 @@ theorem c01_complete_step (cfg : Cfg) (proto : Nat) (ops : List Op) (op : Op) (m
     obtain ⟨g, hsame, hc, -⟩ := ha
     obtain ⟨evs, hlog, hg⟩ := hsame.log
     have hlog' : (s.step op).log = s.log ++ ([Ev.onPublish mid, Ev.completed m0.info mid,
-        Ev.infoDone m0.info ((s.infos[m0.info]?.map (·.rc)).getD 0)] ++ evs) := by
+        Ev.infoDone m0.info rcSuccess] ++ evs) := by
       rw [hlog]; simp [ackState]
     rw [newEvents_of_log hlog', List.count_append, count_completed_of_noCompl (evs_noCompl hg hc)]
     by_cases hmid : mid = m.mid
@@ -290,6 +290,33 @@ theorem c01_final_ack (cfg : Cfg) (proto : Nat) (ops : List Op) (op : Op) (m : O
       have : pubAt (ackState s m0.mid m0) m0.info = some true := by
         rw [pubAt_ackState]; simp [h2]
       exact hsame.pubMono _ this
+
+/-- (added with the F27 model change) the step that delivers the final acknowledgement on an open socket
+starts with: on_publish callback, completion of the instance, and `MQTTMessageInfo` marked published with
+`rc = MQTT_ERR_SUCCESS` (whatever result `publish()` had stored in it before) -/
+theorem c01_final_ack_rc (cfg : Cfg) (proto : Nat) (ops : List Op) (op : Op) (m : OutMsg) :
+    let s := runFrom cfg proto ops
+    m ∈ s.out → op.isFinalAck m.mid = true → s.sock.isSome →
+      ∃ evs, newEvents s op =
+        [Ev.onPublish m.mid, Ev.completed m.info m.mid, Ev.infoDone m.info rcSuccess] ++ evs := by
+  intro s hm hfa hsock
+  have hi := Inv.reach cfg proto ops
+  rw [isFinalAck_iff] at hfa
+  cases stepCase s op with
+  | pubLow q t p r h hl => subst h; simp [ackOp] at hfa
+  | pub q t p r h hs => subst h; simp [ackOp] at hfa
+  | other hnp hna s0 hms hq =>
+    rcases hna m.mid hfa with h | h
+    · rw [h] at hsock; cases hsock
+    · exact absurd h (find_none_of_mem hm)
+  | ack mid m0 c h hs hf ha =>
+    rw [hfa] at h; cases h
+    have := mem_find_unique hi hm hf
+    subst this
+    obtain ⟨g, hsame, -, -⟩ := ha
+    obtain ⟨evs, hlog, -⟩ := hsame.log
+    refine ⟨evs, newEvents_of_log ?_⟩
+    rw [hlog]; simp [ackState]
 
 /-- a message's info is not marked published while the message is still stored -/
 theorem c01_not_early (cfg : Cfg) (proto : Nat) (ops : List Op) (m : OutMsg) :
@@ -361,5 +388,10 @@ example : (runFrom {} 4 [.publish 2 [116] [1] false, .connect true]).out.map (fu
 example : Ev.qPublish 1 0 1 2 false ∈
     newEvents (runFrom {} 4 [.publish 2 [116] [1] false, .connect true]) (.rx (.pkt (.connack false 0)) true) := by
   decide +kernel
+
+/-- the PUBACK step reports instance 0 as published with rc = MQTT_ERR_SUCCESS (0) -/
+example : Ev.infoDone 0 rcSuccess ∈
+    newEvents (runFrom {} 4 [.connect true, .rx (.pkt (.connack false 0)) true, .publish 1 [116] [1] false])
+      (.rx (.pkt (.puback 1)) true) := by decide +kernel
 
 end Paho
